@@ -11,11 +11,16 @@ import (
 
 	"verif/engine/enumx"
 	"verif/engine/ev"
+	"verif/engine/par"
 )
 
 var gens = map[string]enumx.Generator{}
 
 func main() {
+	if par.IsWorker() && par.WorkerKind() == "c12order" {
+		var j orderJob
+		par.WorkerMain(&j, func() interface{} { return orderWorker(j) })
+	}
 	enumx.WorkerMain(gens)
 	prop := flag.String("prop", "", "property id")
 	tier := flag.String("tier", "quick", "quick|thorough")
@@ -28,16 +33,17 @@ func main() {
 	switch *prop {
 	case "C04":
 		run = ev.Begin("C04", *tier, "exploration")
-		enumx.Run(run, "C04", []string{"c04-types", "c04-ms", "c04-product", "c04-errors", "c04-bodybytes", "c04-long", "c04-runes", "c04-literals", "c04-collisions"}, *tier, 16, true)
+		enumx.Run(run, "C04", []string{"c04-types", "c04-ms", "c04-product", "c04-errors", "c04-bodybytes", "c04-long", "c04-runes", "c04-literals", "c04-collisions", "c04-now"}, *tier, 16, true)
 		run.Set("rule", "lines 'type=T msg=audit(S.mmm:N): body' written by an independent formatter: all 65536 types x 3 spellings (name, lower case, UNKNOWN[n]); all 1000 millisecond strings; full product of boundary types x seconds x ms x sequences x hostile bodies; error side: every proper prefix and every single-byte substitution of boundary headers. non-trivial = accepted line whose every header field and ToMapStr key matched the independent expectation, or must-fail line that was rejected")
 	case "C05":
 		run = ev.Begin("C05", *tier, "exploration")
-		enumx.Run(run, "C05", []string{"c05-lines", "c05-bodies", "c05-alltypes", "c05-golden", "c05-typenames", "c05-long", "c05-padding", "c05-multikey", "c05-runes", "c05-numbers", "c05-keypairs", "c05-literals", "c05-case", "c05-saddr-bytes", "c05-after-coalesce", "c05-prefix"}, *tier, 32, true)
+		enumx.Run(run, "C05", []string{"c05-lines", "c05-bodies", "c05-alltypes", "c05-golden", "c05-typenames", "c05-long", "c05-padding", "c05-multikey", "c05-runes", "c05-numbers", "c05-keypairs", "c05-literals", "c05-case", "c05-saddr-bytes", "c05-after-coalesce", "c05-prefix", "c05-amounts"}, *tier, 32, true)
 		run.Set("rule", "all token sequences of length <=3 (quick) / <=4 (thorough) over a token alphabet built from every literal the parser reacts to, as whole log lines and as bodies behind a valid header x 16 record-type classes; all 65536 types x short bodies; every truncation of every golden log line. Oracle: no panic/hang, msg==nil <=> err!=nil, Data/Tags/ToMapStr repeatable. non-trivial = input the parser accepted and for which Data() returned at least one field")
 	case "C12":
 		run = ev.Begin("C12", *tier, "exploration")
 		enumx.Run(run, "C12", []string{"c12-strings", "c12-sockaddr", "c12-syscalls", "c12-derived", "c12-derived-alltypes", "c12-placeholders", "c12-after-coalesce"}, *tier, 16, true)
 		run.Set("rule", "records written by an independent kernel-side encoder (audit_log_untrustedstring rule: quoted if every byte is 0x21..0x7e and not '\"', else upper-case hex; struct sockaddr hex): every string of length <=3 (quick) / <=4 (thorough) over a 14-byte class alphabet for each decoded field; all 65536 IPv4 ports x addresses, IPv6 and unix addresses; every (arch, nr) of the published syscall tables and nr+-1; every errno 1..4095; result / unset-id normalisation; placeholder dropping. non-trivial = record whose decoded value(s) equalled the original")
+		orderPass(run)
 	default:
 		fmt.Println("ERROR unknown property", *prop)
 		os.Exit(2)
@@ -68,3 +74,5 @@ func doReplay(path string) int {
 	fmt.Printf("VIOLATION property=%s replay=%s\n", doc.Property, path)
 	return 1
 }
+
+func jsonUnmarshal(b []byte, v interface{}) error { return json.Unmarshal(b, v) }
